@@ -225,15 +225,15 @@ def run(F, R, tier):
 
     # ---------------------------------------------------------------- R4 degenerate branches
     R.rule("R4", "degenerate branches are exact limits / expansions of the generic form", 20)
-    _r4_barr_zee(F, R, lv, gen_m, spec_m, fClc)
-    _r4_fab(F, R, gen_m, G3c, G4c)
-    _r4_ixy(F, R, lv, gen)
+    R.guard(_r4_barr_zee, F, R, lv, gen_m, spec_m, fClc)
+    R.guard(_r4_fab, F, R, gen_m, G3c, G4c)
+    R.guard(_r4_ixy, F, R, lv, gen)
 
     # ---------------------------------------------------------------- R7 Phi for lambda^2 > 0
-    _r7_phi(F, R, gen_m)
+    R.guard(_r7_phi, F, R, gen_m)
 
     # ---------------------------------------------------------------- R8 Phi/lambda^2 at lambda^2 = 0
-    _r8_phi_limit(F, R)
+    R.guard(_r8_phi_limit, F, R)
 
     # ---------------------------------------------------------------- R6 scale-free regime tests
     R.rule("R6", "the test that selects an equal-argument expansion compares a scale-free quantity (x/y with 1), so that it "
